@@ -62,7 +62,8 @@ theorem step_instr {H : Hooks} {constants L : Dict} {p : Int} {line line' : Line
   refine ⟨ins', args, w, hres, hargs, by rw [← hn]; exact henc, ?_⟩
   rw [← hcmp]; exact hz.2
 
-/-- **C01 at program level.**  After resolve_aligns item `i` is the 32-bit instruction `ins` (a row `k`
+/-- **C01 at program level.**  `lay` is the layout the inputs determine (`C03.Frame`: `lay.aligned` IS
+    the list the pipeline holds after resolve_aligns).  Item `i` of it is the 32-bit instruction `ins` (a row `k`
     of the instruction table with 4-byte encoding): the four output bytes at its byte offset are the
     little-endian bytes of a word `w < 2^32` that the specification decodes to the instruction the item
     names - `intent32` of its mnemonic and of `ops`, the operands its resolved arguments denote
@@ -70,16 +71,18 @@ theorem step_instr {H : Hooks} {constants L : Dict} {p : Int} {line line' : Line
     and those operands are `legal32`. -/
 theorem assemble_instr32_decodes (H : Hooks) (compress : Bool) (items : List Item) (r : AsmResult)
     (h : assembleItems H compress items [] [] = .ok r) :
-    ∃ items7 out : List Item, Expands items items7 ∧ r.bytes = blobBytes out ∧
-      ∀ (i : Nat) (hi : i < items7.length) line ins k, items7[i] = .instr line ins →
+    ∃ lay out, Frame H compress items r lay out ∧
+      ∀ (i : Nat) (hi : i < lay.aligned.length) line ins k, lay.aligned[i] = .instr line ins →
         ins.isCompressed = false → instrTable.lookup ins.name = some k → k.size = 4 →
         ∃ ins' args w ops i32,
           Resolved H (chainGet r.constants r.labels) line ((blobBytes (out.take i)).length : Int) ins ins' ∧
           ins'.args = some args ∧ denote32 k args = some ops ∧ legal32 ins.name ops = true ∧ w < 2 ^ 32 ∧
           (r.bytes.drop (blobBytes (out.take i)).length).take 4 = leBytes 4 w ∧
           intent32 ins.name ops = some i32 ∧ decode32 w = some i32 := by
-  obtain ⟨items7, out, hexp, hland, hbytes⟩ := assemble_land H compress items r h
-  refine ⟨items7, out, hexp, hbytes, ?_⟩
+  obtain ⟨lay, out, hF⟩ := assemble_land H compress items r h
+  have hland := hF.land
+  have hbytes := hF.bytes
+  refine ⟨lay, out, hF, ?_⟩
   intro i hi line ins k hit hnc hk hs
   obtain ⟨it', line', d, _, hbody, hfin, hslice⟩ := hland.at i hi
   rw [hit] at hbody
@@ -98,15 +101,16 @@ theorem assemble_instr32_decodes (H : Hooks) (compress : Bool) (items : List Ite
 /-- R-type (`add sub sll slt sltu xor srl sra or and`, M extension): three registers -/
 theorem assemble_decodes_r (H : Hooks) (compress : Bool) (items : List Item) (r : AsmResult)
     (h : assembleItems H compress items [] [] = .ok r) :
-    ∃ items7 out : List Item, Expands items items7 ∧ r.bytes = blobBytes out ∧
-      ∀ (i : Nat) (hi : i < items7.length) line name rd rs1 rs2 op f3 f7,
-        items7[i] = .instr line (.r name rd rs1 rs2) → instrTable.lookup name = some (.r op f3 f7) →
+    ∃ lay out, Frame H compress items r lay out ∧
+      ∀ (i : Nat) (hi : i < lay.aligned.length) line name rd rs1 rs2 op f3 f7,
+        lay.aligned[i] = .instr line (.r name rd rs1 rs2) → instrTable.lookup name = some (.r op f3 f7) →
         ∃ w a b c i32, lookupRegister rd = some a ∧ lookupRegister rs1 = some b ∧ lookupRegister rs2 = some c ∧
           legal32 name [.reg a, .reg b, .reg c] = true ∧
           (r.bytes.drop (blobBytes (out.take i)).length).take 4 = leBytes 4 w ∧
           intent32 name [.reg a, .reg b, .reg c] = some i32 ∧ decode32 w = some i32 := by
-  obtain ⟨items7, out, hexp, hbytes, hall⟩ := assemble_instr32_decodes H compress items r h
-  refine ⟨items7, out, hexp, hbytes, ?_⟩
+  obtain ⟨lay, out, hF, hall⟩ := assemble_instr32_decodes H compress items r h
+  have hbytes := hF.bytes
+  refine ⟨lay, out, hF, ?_⟩
   intro i hi line name rd rs1 rs2 op f3 f7 hit hk
   obtain ⟨ins', args, w, ops, i32, hres, hargs, hden, hleg, _, hsl, hint, hdec⟩ :=
     hall i hi line _ _ hit rfl hk rfl
@@ -132,17 +136,18 @@ theorem assemble_decodes_r (H : Hooks) (compress : Bool) (items : List Item) (r 
     of the expression at the item's offset -/
 theorem assemble_decodes_i (H : Hooks) (compress : Bool) (items : List Item) (r : AsmResult)
     (h : assembleItems H compress items [] [] = .ok r) :
-    ∃ items7 out : List Item, Expands items items7 ∧ r.bytes = blobBytes out ∧
-      ∀ (i : Nat) (hi : i < items7.length) line name rd rs1 imm k,
-        items7[i] = .instr line (.i name rd rs1 imm false) → instrTable.lookup name = some k →
+    ∃ lay out, Frame H compress items r lay out ∧
+      ∀ (i : Nat) (hi : i < lay.aligned.length) line name rd rs1 imm k,
+        lay.aligned[i] = .instr line (.i name rd rs1 imm false) → instrTable.lookup name = some k →
         (∃ op f3, k = .i op f3 ∨ k = .ij op f3) →
         ∃ w a b v i32, lookupRegister rd = some a ∧ lookupRegister rs1 = some b ∧
           Imm.eval H (chainGet r.constants r.labels) line imm ((blobBytes (out.take i)).length : Int) = .ok v ∧
           legal32 name [.reg a, .reg b, .imm v] = true ∧
           (r.bytes.drop (blobBytes (out.take i)).length).take 4 = leBytes 4 w ∧
           intent32 name [.reg a, .reg b, .imm v] = some i32 ∧ decode32 w = some i32 := by
-  obtain ⟨items7, out, hexp, hbytes, hall⟩ := assemble_instr32_decodes H compress items r h
-  refine ⟨items7, out, hexp, hbytes, ?_⟩
+  obtain ⟨lay, out, hF, hall⟩ := assemble_instr32_decodes H compress items r h
+  have hbytes := hF.bytes
+  refine ⟨lay, out, hF, ?_⟩
   intro i hi line name rd rs1 imm k hit hk hkind
   have hs : k.size = 4 := by
     obtain ⟨op, f3, hk' | hk'⟩ := hkind <;> subst hk' <;> rfl
@@ -171,16 +176,17 @@ theorem assemble_decodes_i (H : Hooks) (compress : Bool) (items : List Item) (r 
 /-- S-type (`sb sh sw`) -/
 theorem assemble_decodes_s (H : Hooks) (compress : Bool) (items : List Item) (r : AsmResult)
     (h : assembleItems H compress items [] [] = .ok r) :
-    ∃ items7 out : List Item, Expands items items7 ∧ r.bytes = blobBytes out ∧
-      ∀ (i : Nat) (hi : i < items7.length) line name rs1 rs2 imm op f3,
-        items7[i] = .instr line (.s name rs1 rs2 imm) → instrTable.lookup name = some (.s op f3) →
+    ∃ lay out, Frame H compress items r lay out ∧
+      ∀ (i : Nat) (hi : i < lay.aligned.length) line name rs1 rs2 imm op f3,
+        lay.aligned[i] = .instr line (.s name rs1 rs2 imm) → instrTable.lookup name = some (.s op f3) →
         ∃ w a b v i32, lookupRegister rs1 = some a ∧ lookupRegister rs2 = some b ∧
           Imm.eval H (chainGet r.constants r.labels) line imm ((blobBytes (out.take i)).length : Int) = .ok v ∧
           legal32 name [.reg a, .reg b, .imm v] = true ∧
           (r.bytes.drop (blobBytes (out.take i)).length).take 4 = leBytes 4 w ∧
           intent32 name [.reg a, .reg b, .imm v] = some i32 ∧ decode32 w = some i32 := by
-  obtain ⟨items7, out, hexp, hbytes, hall⟩ := assemble_instr32_decodes H compress items r h
-  refine ⟨items7, out, hexp, hbytes, ?_⟩
+  obtain ⟨lay, out, hF, hall⟩ := assemble_instr32_decodes H compress items r h
+  have hbytes := hF.bytes
+  refine ⟨lay, out, hF, ?_⟩
   intro i hi line name rs1 rs2 imm op f3 hit hk
   obtain ⟨ins', args, w, ops, i32, hres, hargs, hden, hleg, _, hsl, hint, hdec⟩ :=
     hall i hi line _ _ hit rfl hk rfl
@@ -205,16 +211,17 @@ theorem assemble_decodes_s (H : Hooks) (compress : Bool) (items : List Item) (r 
 /-- U-type (`lui auipc`) -/
 theorem assemble_decodes_u (H : Hooks) (compress : Bool) (items : List Item) (r : AsmResult)
     (h : assembleItems H compress items [] [] = .ok r) :
-    ∃ items7 out : List Item, Expands items items7 ∧ r.bytes = blobBytes out ∧
-      ∀ (i : Nat) (hi : i < items7.length) line name rd imm op,
-        items7[i] = .instr line (.u name rd imm) → instrTable.lookup name = some (.u op) →
+    ∃ lay out, Frame H compress items r lay out ∧
+      ∀ (i : Nat) (hi : i < lay.aligned.length) line name rd imm op,
+        lay.aligned[i] = .instr line (.u name rd imm) → instrTable.lookup name = some (.u op) →
         ∃ w a v i32, lookupRegister rd = some a ∧
           Imm.eval H (chainGet r.constants r.labels) line imm ((blobBytes (out.take i)).length : Int) = .ok v ∧
           legal32 name [.reg a, .imm v] = true ∧
           (r.bytes.drop (blobBytes (out.take i)).length).take 4 = leBytes 4 w ∧
           intent32 name [.reg a, .imm v] = some i32 ∧ decode32 w = some i32 := by
-  obtain ⟨items7, out, hexp, hbytes, hall⟩ := assemble_instr32_decodes H compress items r h
-  refine ⟨items7, out, hexp, hbytes, ?_⟩
+  obtain ⟨lay, out, hF, hall⟩ := assemble_instr32_decodes H compress items r h
+  have hbytes := hF.bytes
+  refine ⟨lay, out, hF, ?_⟩
   intro i hi line name rd imm op hit hk
   obtain ⟨ins', args, w, ops, i32, hres, hargs, hden, hleg, _, hsl, hint, hdec⟩ :=
     hall i hi line _ _ hit rfl hk rfl
@@ -238,7 +245,8 @@ end BB.Props.C01
 namespace BB.Props.C02
 open BB BB.Spec BB.Lemmas BB.Props.C03 BB.Props.C01
 
-/-- **C02 at program level.**  After resolve_aligns item `i` is the compressed instruction `ins` with
+/-- **C02 at program level.**  `lay` is the layout the inputs determine (`C03.Frame`: `lay.aligned` IS
+    the list the pipeline holds after resolve_aligns).  Item `i` of it is the compressed instruction `ins` with
     RVC mnemonic class `c` (hand-written `c.*`, or what `-c` made of a 32-bit instruction): the two output
     bytes at its byte offset are the little-endian bytes of a halfword `w < 2^16` that the specification
     decodes to the RVC instruction the item names - so never to a HINT, a reserved or an illegal
@@ -246,16 +254,18 @@ open BB BB.Spec BB.Lemmas BB.Props.C03 BB.Props.C01
     against the returned tables) are `legal16`. -/
 theorem assemble_instr16_decodes (H : Hooks) (compress : Bool) (items : List Item) (r : AsmResult)
     (h : assembleItems H compress items [] [] = .ok r) :
-    ∃ items7 out : List Item, Expands items items7 ∧ r.bytes = blobBytes out ∧
-      ∀ (i : Nat) (hi : i < items7.length) line ins c, items7[i] = .instr line ins →
+    ∃ lay out, Frame H compress items r lay out ∧
+      ∀ (i : Nat) (hi : i < lay.aligned.length) line ins c, lay.aligned[i] = .instr line ins →
         ins.isCompressed = true → classOf16 ins.name = some c →
         ∃ ins' args w ops ci,
           Resolved H (chainGet r.constants r.labels) line ((blobBytes (out.take i)).length : Int) ins ins' ∧
           ins'.args = some args ∧ denote16 (rowOf c) args = some ops ∧ legal16 ins.name ops = true ∧ w < 65536 ∧
           (r.bytes.drop (blobBytes (out.take i)).length).take 2 = leBytes 2 w ∧
           intent16 ins.name ops = some ci ∧ decode16 w = some ci ∧ decode16 w ≠ none := by
-  obtain ⟨items7, out, hexp, hland, hbytes⟩ := assemble_land H compress items r h
-  refine ⟨items7, out, hexp, hbytes, ?_⟩
+  obtain ⟨lay, out, hF⟩ := assemble_land H compress items r h
+  have hland := hF.land
+  have hbytes := hF.bytes
+  refine ⟨lay, out, hF, ?_⟩
   intro i hi line ins c hit hcmp hc
   obtain ⟨it', line', d, _, hbody, hfin, hslice⟩ := hland.at i hi
   rw [hit] at hbody
@@ -273,17 +283,18 @@ theorem assemble_instr16_decodes (H : Hooks) (compress : Bool) (items : List Ite
 /-- CI format (`c.addi c.li c.lui c.slli c.lwsp`): one register and the value of the expression -/
 theorem assemble_decodes_ci (H : Hooks) (compress : Bool) (items : List Item) (r : AsmResult)
     (h : assembleItems H compress items [] [] = .ok r) :
-    ∃ items7 out : List Item, Expands items items7 ∧ r.bytes = blobBytes out ∧
-      ∀ (i : Nat) (hi : i < items7.length) line name rd imm c,
-        items7[i] = .instr line (.ci name rd imm) → classOf16 name = some c →
+    ∃ lay out, Frame H compress items r lay out ∧
+      ∀ (i : Nat) (hi : i < lay.aligned.length) line name rd imm c,
+        lay.aligned[i] = .instr line (.ci name rd imm) → classOf16 name = some c →
         (∃ op f3 cs, rowOf c = .ci op f3 cs ∨ rowOf c = .ciu op f3 cs ∨ rowOf c = .cil op f3 cs) →
         ∃ w a v ci, lookupRegister rd = some a ∧
           Imm.eval H (chainGet r.constants r.labels) line imm ((blobBytes (out.take i)).length : Int) = .ok v ∧
           legal16 name [.reg a, .imm v] = true ∧
           (r.bytes.drop (blobBytes (out.take i)).length).take 2 = leBytes 2 w ∧
           intent16 name [.reg a, .imm v] = some ci ∧ decode16 w = some ci := by
-  obtain ⟨items7, out, hexp, hbytes, hall⟩ := assemble_instr16_decodes H compress items r h
-  refine ⟨items7, out, hexp, hbytes, ?_⟩
+  obtain ⟨lay, out, hF, hall⟩ := assemble_instr16_decodes H compress items r h
+  have hbytes := hF.bytes
+  refine ⟨lay, out, hF, ?_⟩
   intro i hi line name rd imm c hit hc hrow
   obtain ⟨ins', args, w, ops, ci, hres, hargs, hden, hleg, _, hsl, hint, hdec, _⟩ :=
     hall i hi line _ c hit rfl hc
@@ -307,16 +318,17 @@ theorem assemble_decodes_ci (H : Hooks) (compress : Bool) (items : List Item) (r
 /-- CR / CA formats (`c.mv c.add`, `c.sub c.xor c.or c.and`): two registers -/
 theorem assemble_decodes_cr (H : Hooks) (compress : Bool) (items : List Item) (r : AsmResult)
     (h : assembleItems H compress items [] [] = .ok r) :
-    ∃ items7 out : List Item, Expands items items7 ∧ r.bytes = blobBytes out ∧
-      ∀ (i : Nat) (hi : i < items7.length) line ins name rd rs2 c,
-        items7[i] = .instr line ins → (ins = .cr name rd rs2 ∨ ins = .ca name rd rs2) →
+    ∃ lay out, Frame H compress items r lay out ∧
+      ∀ (i : Nat) (hi : i < lay.aligned.length) line ins name rd rs2 c,
+        lay.aligned[i] = .instr line ins → (ins = .cr name rd rs2 ∨ ins = .ca name rd rs2) →
         classOf16 name = some c → (∃ op f g cs, rowOf c = .cr op f cs ∨ rowOf c = .ca op f g cs) →
         ∃ w a b ci, lookupRegister rd = some a ∧ lookupRegister rs2 = some b ∧
           legal16 name [.reg a, .reg b] = true ∧
           (r.bytes.drop (blobBytes (out.take i)).length).take 2 = leBytes 2 w ∧
           intent16 name [.reg a, .reg b] = some ci ∧ decode16 w = some ci := by
-  obtain ⟨items7, out, hexp, hbytes, hall⟩ := assemble_instr16_decodes H compress items r h
-  refine ⟨items7, out, hexp, hbytes, ?_⟩
+  obtain ⟨lay, out, hF, hall⟩ := assemble_instr16_decodes H compress items r h
+  have hbytes := hF.bytes
+  refine ⟨lay, out, hF, ?_⟩
   intro i hi line ins name rd rs2 c hit hins hc hrow
   have hn : ins.name = name ∧ ins.isCompressed = true ∧ ins.imm? = none ∧ ins.args = some [.r rd, .r rs2] := by
     rcases hins with rfl | rfl <;> exact ⟨rfl, rfl, rfl, rfl⟩
@@ -363,5 +375,33 @@ example : bytesOf (assembleItems (textHooks ⟨[], []⟩) false exProg [] []) =
 example : bytesOf (assembleItems (textHooks ⟨[], []⟩) true exProg [] []) =
       leBytes 2 0x8c05 ++ leBytes 4 0xffd30293 ++ leBytes 2 0x43a5 ∧
     decode16 0x8c05 = some (.sub 8 9) := by decide +kernel
+
+/-- a little program: label, the instructions of `exProg`, data, an alignment, a pseudo-instruction -/
+def exProg2 : List Item :=
+  [.label ⟨"m.asm", 1, "go:"⟩ "go",
+   .instr ⟨"m.asm", 2, "sub x8, x8, x9"⟩ (.r "sub" (.str "x8") (.str "x8") (.str "x9")),
+   .shorthandPack ⟨"m.asm", 3, "db 1"⟩ "db" (.arith "1"),
+   .align ⟨"m.asm", 4, "align 2"⟩ 2,
+   .instr ⟨"m.asm", 5, "addi x5, x6, -3"⟩ (.i "addi" (.str "x5") (.str "x6") (.arith "-3") false),
+   .instr ⟨"m.asm", 6, "c.li x7, 9"⟩ (.ci "c.li" (.str "x7") (.arith "9")),
+   .pseudo ⟨"m.asm", 7, "ret"⟩ "ret" []]
+
+/-- the hypotheses of `assemble_instr32_decodes` / `assemble_instr16_decodes` have instances: the layout
+    computed for `exProg2` holds, without -c, the 32-bit `sub` at index 0, the 32-bit `addi` at 3 and
+    the hand-written `c.li` at 4; with -c the `sub` has become `c.sub` -/
+example :
+    (BB.Props.C04.layoutOf (textHooks ⟨[], []⟩) false exProg2).toOption.map
+      (fun l => (l.aligned[0]?, l.aligned[3]?, l.aligned[4]?)) = some
+      (some (.instr ⟨"m.asm", 2, "sub x8, x8, x9"⟩ (.r "sub" (.str "x8") (.str "x8") (.str "x9"))),
+       some (.instr ⟨"m.asm", 5, "addi x5, x6, -3"⟩ (.i "addi" (.str "x5") (.str "x6") (.arith "-3") false)),
+       some (.instr ⟨"m.asm", 6, "c.li x7, 9"⟩ (.ci "c.li" (.str "x7") (.arith "9")))) ∧
+    (BB.Props.C04.layoutOf (textHooks ⟨[], []⟩) true exProg2).toOption.map
+      (fun l => (l.aligned[0]?, l.aligned[3]?, l.aligned[4]?)) = some
+      (some (.instr ⟨"m.asm", 2, "sub x8, x8, x9"⟩ (.ca "c.sub" (.str "x8") (.str "x9"))),
+       some (.instr ⟨"m.asm", 5, "addi x5, x6, -3"⟩ (.i "addi" (.str "x5") (.str "x6") (.arith "-3") false)),
+       some (.instr ⟨"m.asm", 6, "c.li x7, 9"⟩ (.ci "c.li" (.str "x7") (.arith "9")))) ∧
+    (bytesOf (assembleItems (textHooks ⟨[], []⟩) false exProg2 [] [])).length = 16 ∧
+    (bytesOf (assembleItems (textHooks ⟨[], []⟩) true exProg2 [] [])).length = 12 := by
+  decide +kernel
 
 end BB.Props.C02
